@@ -52,6 +52,13 @@ Definition check (c : case) : N :=
   let m2 :=
     negb (c_hung c) && negb (c_panicked c)
     && (negb (c_bob c) || match c_outcome c with Some _ => true | None => false end)       (* bob can always report *)
+    (* ... and once the request named a document, the report names it (the engine frees the
+       per-document slot by it), whatever failed afterwards *)
+    && (negb (c_bob c) || match c_frames c, c_result c with
+                          | _, SErrAbort _ => true            (* declined: no slot is held *)
+                          | FMsg true _ n _ :: _, _ => option_eqb N.eqb (c_namespace c) (Some n)
+                          | _, _ => true
+                          end)
     && (match c_result c with
         | SErrAbort _ => list_eqb final_eqb (c_before c) (c_after c)                          (* declined: nothing changed *)
         | SOk => match c_outcome c with
